@@ -47,7 +47,7 @@ static int g_in_use, g_writers_in_use, g_reallocs_during_use;
 /* cbmc's concurrency mode rejects shared POINTER variables ("pointer handling for concurrency is unsound"), so the two table
  * pointers are integer HANDLES in the encoded copy of fft4g_cache.h (mechanical rewrite done by vf/props/C17.py from the
  * current header, every pattern must match exactly once): realloc returns a fresh handle (generation count). */
-static long vf_generation;
+static long vf_generation; static int vf_table_n;
 static long vf_realloc(long p, size_t n)
 {
   (void)p; (void)n;
@@ -81,18 +81,26 @@ static void vf_transform(int len, int type, double * d, long br, long sc);
 
 static void vf_transform(int len, int type, double * d, long br, long sc)
 {
-  long gen0;
+  long gen0; int rebuilding;
   (void)type; (void)d;
   __CPROVER_atomic_begin();
   gen0 = vf_generation;
   VF_ASSERT(br != 0 && sc != 0 && br <= vf_generation && sc == br + 1, "a transform runs on the currently allocated tables (C17)");
   VF_ASSERT(fft_len >= len, "a transform never runs with tables smaller than it needs (C17)");
   VF_ASSERT(g_writers_in_use == 0, "no transform starts while a writer is rebuilding the tables (C17)");
+  /* fft4g.c:rdft/cdft rebuild the twiddle / bit-reversal tables in place whenever the requested length exceeds the length the
+   * tables were last built for (ip[0], here vf_table_n) - whatever lock the caller holds.  Such a transform must be alone: */
+  rebuilding = len > vf_table_n;
+  if (rebuilding) {
+    VF_ASSERT(g_in_use == 0, "the tables are rebuilt (transform longer than the tables) only while no other transform is using them (C17)");
+    ++g_writers_in_use;
+  }
   ++g_in_use;
   __CPROVER_atomic_end();
   /* ... the transform reads (reader) or rebuilds (writer: len > 4 * table size) the tables here ... */
   __CPROVER_atomic_begin();
   VF_ASSERT(vf_generation == gen0 && fft_len >= len, "the tables a transform uses are neither replaced nor re-sized until it ends (C17)");
+  if (rebuilding) { vf_table_n = len; --g_writers_in_use; }
   --g_in_use;
   __CPROVER_atomic_end();
 }
@@ -131,7 +139,7 @@ VF_MAIN
   __CPROVER_ASYNC_3: thread_body(2);
 #endif
   __CPROVER_assume(g_done == VF_THREADS);
-  VF_ASSERT(fft_len == mx, "after all calls the cache size is the largest length requested (C17/C10)");
+  VF_ASSERT(fft_len >= mx, "after all calls the cache covers the largest length requested (C17/C10)");
   VF_ASSERT(fft_cache_ccrw.readcount == 0 && fft_cache_ccrw.writecount == 0, "no reader/writer registration is left behind (C17)");
   VF_ASSERT(!fft_cache_ccrw.w.held && !fft_cache_ccrw.r.held && !fft_cache_ccrw.mutex_1.held && !fft_cache_ccrw.mutex_2.held && !fft_cache_ccrw.mutex_3.held, "all locks are free at the end (C17)");
   VF_WITNESS();
